@@ -537,7 +537,7 @@ fn self_check() -> Vec<String> {
 fn scale_values() -> Vec<(String, Val)> {
     let long: String = "長い名前_".chars().cycle().take(300).collect();
     let mut out = Vec::new();
-    for n in [255usize, 256, 257, 8_000] {
+    for n in vcore::util::ladder(8_193) {
         let mut sets = Vec::new();
         for i in 0..n {
             let mut set: Vec<Option<String>> = vec![None; 257];
@@ -575,14 +575,19 @@ fn explore(ctx: &Ctx) -> Outcome {
             v.sig = format!("after-failed-calls:{}", v.sig);
         }
     }
-    for (name, v) in scale_values() {
-        total.cases += 1;
-        total.nontrivial += 1;
-        total.class("family:scale");
-        if let Some((sig, summary)) = judge(&v, &mut total) {
-            total.violate(format!("scale:{}", sig), format!("[{}] {}", name, summary.chars().take(400).collect::<String>()), json!({"scale": name}));
-        }
-    }
+    let scale_t = scale_values()
+        .par_iter()
+        .fold(Tally::new, |mut t, (name, v)| {
+            t.cases += 1;
+            t.nontrivial += 1;
+            t.class("family:scale");
+            if let Some((sig, summary)) = judge(v, &mut t) {
+                t.violate(format!("scale:{}", sig), format!("[{}] {}", name, summary.chars().take(400).collect::<String>()), json!({"scale": name}));
+            }
+            t
+        })
+        .reduce(Tally::new, Tally::merge);
+    total.absorb(scale_t);
     // samples: generator coordinates of three representative cases
     total.sample(serde_json::to_value(Case { fam: "lists".into(), meta: 3, clip: 2, sets: vec![shape(1), shape(4), shape(0)] }).unwrap());
     total.sample(serde_json::to_value(Case { fam: "slots-le2-absent".into(), meta: 1, clip: 6, sets: embed(SetDesc { label: None, pat: Pat::Absent(vec![32, 33]), scheme: 1 }, 1) }).unwrap());
